@@ -60,6 +60,8 @@ def gen_trees(wd, binary, tier, only=None):
     missing = [r for r in ROLES if not res["counts"].get("role:" + r)]
     if missing and not only:
         raise vlib.Infra("the small trees do not put the wallet address in these roles: %s" % missing)
+    if not only and not res["counts"].get("pinned_blocks"):
+        raise vlib.Infra("no small tree has a block whose pinned expiration order differs from the store's own (chain.WithExpiringContractOrder is not exercised)")
     return os.path.join(wd, "wl_trees.json"), json.load(open(os.path.join(wd, "wl_specs.json"))), json.load(open(os.path.join(wd, "wl_refs.json"))), res
 
 
@@ -226,6 +228,8 @@ def run(tier):
         (gen["counts"]["real_trees"], gen["counts"]["blocks"], gen["counts"]["valid_blocks"], len(refs),
          ", ".join("%s %d" % (r, gen["counts"].get("role:" + r, 0)) for r in ROLES)))
     t1 = time.time()
+    log("  %d worlds run their managers with chain.WithExpiringContractOrder; %d blocks expire two or more v1 contracts in a pinned order other than the store's own" %
+        (gen["counts"].get("pinned_worlds", 0), gen["counts"].get("pinned_blocks", 0)))
     m = leg_m(wd, tier, trees)
     t2 = time.time()
     rr = leg_r(wd, tier, binary, trees, specs, refs, verdict)
@@ -243,7 +247,9 @@ def run(tier):
                 "distinct by (tree, persona, action, resulting tip, resulting wallet position); T: one evaluation per recorded call of the randomised "
                 "driver validated by TLC, distinct by (history tree, persona)",
         "model": {"real_trees": gen["counts"]["real_trees"], "abstract_trees": len(refs), "blocks": gen["counts"]["blocks"],
-                  "chunk_sizes": [1, 2, 3, 5, 7], "value_abstraction": "residues modulo 65521 in TLC, exact big integers in the audits",
+                  "chunk_sizes": [1, 2, 3, 5, 7],
+                  "worlds_with_pinned_expiration_order": gen["counts"].get("pinned_worlds", 0),
+                  "blocks_with_a_pinned_order_other_than_the_stores": gen["counts"].get("pinned_blocks", 0), "value_abstraction": "residues modulo 65521 in TLC, exact big integers in the audits",
                   "deviations_on": sorted(open_devs()), "design_probes": m["probes"],
                   "wallet_roles_in_small_trees": {r: gen["counts"].get("role:" + r, 0) for r in ROLES}},
         "replay": {k: rr[k] for k in ("states", "edges", "paths", "cover_paths", "covered", "steps", "full", "trees")},
@@ -255,7 +261,7 @@ def run(tier):
         "the wallet is fed as the package's users feed it: UpdatesSince(index, max) then store.UpdateChainState(wallet.UpdateChainState(tx, reverted, applied)) with the reference store testutil.EphemeralWalletStore; the harness itself keeps the index the stream left the wallet at",
         "wallet-relevant event = an event that changes the address' siacoins (what wallet/update.go itself records); pure siafund movements are not events",
         "go.sia.tech/core (consensus rules, accumulator membership) is the trusted oracle; the linear-replay ledger and the per-block wallet views use only core",
-        "no two live v1 contracts share a window end in these histories (their expiration ORDER is property C02's known finding); Balance().Spendable and .Unconfirmed are compared only while the manager's pool is empty (a reorg re-pools the reverted transactions), .Confirmed and .Immature always",
+        "v1 contracts share a window end only in worlds whose managers pin the expiration order (chain.WithExpiringContractOrder; the oracle ledger applies the same order) -- without a pin their ORDER is history dependent (C02's known finding); Balance().Spendable and .Unconfirmed are compared only while the manager's pool is empty (a reorg re-pools the reverted transactions), .Confirmed and .Immature always",
         "TLC sees currency values modulo 65521 (sums commute with the reduction); the exact equation is evaluated on the real wallet after every chunk",
     ], time.time() - t0, len(verdict.violations))
     return rc
@@ -329,6 +335,10 @@ def selftest():
         if e["utxo"]:
             e["utxo"][-1][2] += 1
             return True
+    def m_leaf(e):
+        if e["utxo"]:
+            e["utxo"][-1][3] += 1
+            return True
     def m_event(e):
         if len(e["ev"]) > 1:
             e["ev"].pop()
@@ -338,6 +348,7 @@ def selftest():
             e["aus"] = e["aus"][:-1]
             return True
     ok = corrupt(m_maturity, "maturity height of one stored output off by one") and ok
+    ok = corrupt(m_leaf, "leaf index of one stored output off by one") and ok
     ok = corrupt(m_event, "one stored event removed") and ok
     ok = corrupt(m_stream, "one applied block dropped from the recorded stream") and ok
     # a trace recorded from a wrong wallet
